@@ -25,6 +25,7 @@ META = {
     "design_ref": "4/C03",
 }
 LEVEL = "proof"
+EXTRACTS = ["repex"]
 
 
 def _run(case):
